@@ -193,6 +193,11 @@ func one(w *bufio.Writer, seed uint64, n int, all bool, quota int, long bool, on
 	} else {
 		C := twin.Commits
 		var ks []int
+		if all && C > 250 {
+			// the thorough tier makes every commit a crash point, except in histories with more than 250 commits
+			// (the 1000+ block chains: every crashed replay repeats the whole chain): a stratified sample of 48
+			all, quota = false, 48
+		}
 		if all || C <= quota {
 			for k := 1; k <= C; k++ {
 				ks = append(ks, k)
